@@ -45,6 +45,21 @@ def storage_modes(tier):
             check('archive-member', data, com)
         except Exception as e:
             out.append(('roundtrip[archive-member]', False, dict(mode='archive-member', error=repr(e))))
+        # two members with the same base name in different sub-folders: each is read back as itself
+        try:
+            zf = os.path.join(d, 'arch2.zip')
+            dfa, dfb = df.copy(), df.iloc[:2].copy()
+            dfb['flow_1'] = [7.0, 8.0]
+            with zipfile.ZipFile(zf, 'w') as ar:
+                csv.write_csv(dfa, 'site_A/flow.csv', {'station': 'A'}, src, archive=ar, write_sys_info=False, author='me')
+                csv.write_csv(dfb, 'site_B/flow.csv', {'station': 'B'}, src, archive=ar, write_sys_info=False, author='me')
+            with zipfile.ZipFile(zf, 'r') as ar:
+                da, ca = csv.read_csv('site_A/flow.csv', archive=ar)
+                db, cb = csv.read_csv('site_B/flow.csv', archive=ar)
+            out.append(('same-base-name-members-kept-apart', ca.get('station') == 'A' and cb.get('station') == 'B' and len(da) == 3 and len(db) == 2 and
+                        list(db['flow_1']) == [7.0, 8.0] and cb.get('nrow') == '2', dict(mode='archive-two-members', got=[ca.get('station'), cb.get('station'), len(da), len(db)])))
+        except Exception as e:
+            out.append(('roundtrip[archive-two-members]', False, dict(mode='archive-two-members', error=repr(e))))
     finally:
         shutil.rmtree(d, ignore_errors=True)
     return out
